@@ -3064,6 +3064,29 @@ where
     }
 }
 
+/// Read-only inspector for the verification replay programs in /verif (feature `verif`).
+#[cfg(feature = "verif")]
+impl<K, V, S> HashMap<K, V, S> {
+    /// Returns `(table length, size_ctl, count, transfer_index, next_table is null)`.
+    #[doc(hidden)]
+    pub fn __verif_inspect(&self, guard: &Guard<'_>) -> (usize, isize, isize, isize, bool) {
+        let table = self.table.load(Ordering::SeqCst, guard);
+        let len = if table.is_null() {
+            0
+        } else {
+            // safety: loaded under `guard`
+            unsafe { table.deref() }.len()
+        };
+        (
+            len,
+            self.size_ctl.load(Ordering::SeqCst),
+            self.count.load(Ordering::SeqCst),
+            self.transfer_index.load(Ordering::SeqCst),
+            self.next_table.load(Ordering::SeqCst, guard).is_null(),
+        )
+    }
+}
+
 #[cfg(not(miri))]
 #[inline]
 /// Returns the number of physical CPUs in the machine (_O(1)_).
